@@ -75,6 +75,15 @@ def gen_cases(tier):
                 cfg = Cfg("v3", auth=auth, priv=priv, key_type=kt, priv_key_type=pkt, discover=disc)
                 pre = [["discover", 0, 3]] if disc else []
                 yield {"class": "length-sweep", "cfgs": [cfg.describe()], "history": pre + length_sweep(2, 70 if thorough else 40)}
+    # privacy key given as the very octets of the auth key, but of another key type
+    for auth, priv in combos:
+        for kt, pkt in kts:
+            for disc in (False, True):
+                n = {1: 16, 2: 20}[auth]
+                cfg = Cfg("v3", auth=auth, priv=priv, key_type=kt, priv_key_type=pkt, discover=disc, same_bytes=True, auth_pass=bytes(range(0x30, 0x30 + n)))
+                pre = [["discover", 0, 3]] if disc else []
+                tail = [["set_keys", 0], ["get", 0, "sys"], ["reply", 0, "octets", 9]] if not disc else []
+                yield {"class": "same-octets", "cfgs": [cfg.describe()], "history": pre + length_sweep(2, 12) + tail}
     # boots / time corner values drive the AES IV and the DES salt prefix
     for auth, priv in combos:
         cfg = Cfg("v3", auth=auth, priv=priv, engine_id=bytes(range(1, 18)))
